@@ -547,12 +547,12 @@ def run_smoke(drv, case) -> Outcome:
             for st in legacy.states:
                 out.evaluations += 1
                 if st.isket:
-                    if abs(st.norm() - 1) > 1e-6:
+                    if abs(st.norm() - 1) > 2e-5:       # integrator tolerance (rtol 1e-6) is not a break
                         out.fail("norm", f"state norm {st.norm()} after noiseless evolution (T={T})")
                 else:
                     m = st.full()
                     ev = np.linalg.eigvalsh((m + m.conj().T) / 2)
-                    if abs(np.trace(m) - 1) > 1e-6 or np.max(np.abs(m - m.conj().T)) > 1e-8 or ev.min() < -1e-7:
+                    if abs(np.trace(m) - 1) > 2e-5 or np.max(np.abs(m - m.conj().T)) > 1e-8 or ev.min() < -1e-6:
                         out.fail("density-matrix-physical",
                                  f"trace {np.trace(m)}, hermiticity {np.max(np.abs(m - m.conj().T)):.2g}, min eig {ev.min():.2g}")
             if case.get("zero_drive"):
@@ -679,7 +679,7 @@ RUNNERS = dict(weights=run_weights, kernel=run_kernel, evaltimes=run_evaltimes, 
 SHRINKERS = dict(evaltimes=shrink_evaltimes, smoke=shrink_smoke)
 GENS = dict(weights=gen_weights, kernel=gen_kernel, evaltimes=gen_evaltimes, config=gen_config, smoke=gen_smoke)
 QUICK = dict(weights=800, kernel=250, evaltimes=900, config=300, smoke=30)
-THOROUGH = dict(weights=5000, kernel=1500, evaltimes=6000, config=2000, smoke=200)
+THOROUGH = dict(weights=20000, kernel=6000, evaltimes=25000, config=8000, smoke=600)
 
 
 def runner(drv, case) -> Outcome:
